@@ -238,6 +238,20 @@ class FnTranslator:
             loops = [st for st in body if isinstance(st, ast.For)]
             if len(loops) != 1:
                 raise TranslationError(f"{self.fname}: expected exactly one loop")
+            # the v1 loop kinds translate the BODY of the single loop; everything around it must be plain
+            # plumbing (allocations, counters, calls of known helpers) — a branch, an early return or a second
+            # loop before / after the loop changes the function and must break the tie (round-4 lesson)
+            k_loop = next(i for i, st in enumerate(body) if isinstance(st, ast.For))
+            for st in body[:k_loop]:
+                if isinstance(st, ast.Expr) and isinstance(st.value, ast.Constant):
+                    continue
+                if not isinstance(st, ast.Assign):
+                    raise TranslationError(f"{self.fname}: unsupported statement before the loop: "
+                                           f"{ast.unparse(st)[:60]}")
+            for st in body[k_loop + 1:]:
+                if not (isinstance(st, ast.Return) and isinstance(st.value, ast.Name)):
+                    raise TranslationError(f"{self.fname}: unsupported statement after the loop: "
+                                           f"{ast.unparse(st)[:60]}")
             for st in body:
                 if isinstance(st, ast.For):
                     break
@@ -251,7 +265,8 @@ class FnTranslator:
                 stmts = loop.body
             else:
                 inner = loop.body[0]
-                if not (isinstance(inner, ast.For) and isinstance(inner.body[0], ast.If)):
+                if not (len(loop.body) == 1 and isinstance(inner, ast.For) and len(inner.body) == 1
+                        and isinstance(inner.body[0], ast.If) and not inner.body[0].orelse):
                     raise TranslationError(f"{self.fname}: not the mask double loop")
                 self.loop_vars = {loop.target.id: "y", inner.target.id: "x"}
                 late_binders = [("y", "Nat"), ("x", "Nat")]
